@@ -179,6 +179,9 @@ func (s *SearchParams) QueryEscape(st string, output *strings.Builder) {
 	for _, b := range st {
 		if b == 0x0020 {
 			output.WriteRune(0x002B)
+		} else if b == '&' || b == '=' || b == '+' {
+			// the delimiters of the application/x-www-form-urlencoded format are escaped whatever the encode set
+			output.WriteString(s.url.parser.percentEncodeRune(b, nil))
 		} else {
 			output.WriteString(s.url.parser.percentEncodeRune(b, s.url.parser.opts.queryPercentEncodeSet))
 		}
